@@ -42,9 +42,14 @@ def main():
         order = reversed(list(order))
     for i in order:
         t0 = time.time()
-        seed = seeds.run_seed(master, prop, i)
-        knobs = cls.knobs(seeds.stream(seed, 'knob'), tier)
-        ops = cls.generate(seeds.stream(seed, 'gen'), knobs)
+        if job['mode'] == 'sweep':
+            # deterministic enumeration: case i of the machine's bounded op-sequence space
+            seed = seeds.H(master, prop, 'sweep', i)
+            knobs, ops = cls.sweep_case(i, tier)
+        else:
+            seed = seeds.run_seed(master, prop, i)
+            knobs = cls.knobs(seeds.stream(seed, 'knob'), tier)
+            ops = cls.generate(seeds.stream(seed, 'gen'), knobs)
         rec = engine.execute(cls, seed, knobs, ops)
         d = {'i': i, 'seed': seed, 'outcome': rec['outcome'], 'check': rec['check'],
              'key': rec['key'], 'msg': rec['msg'], 'digest': rec['digest'],
